@@ -201,14 +201,17 @@ def check_names_history(ctx, anchor, label, why):
         ('set', 'rate', 1), ('eval', 'Data!C2', 2), ('eval', 'Data 2!B1', 401), ('eval', 'Data!C1', 421), ('eval', 'Data 2!C1', 1421),
     ]
     n = 0
-    trail = []
-    for st in steps:
-        if st[0] == 'set':
-            wb.set(st[1], st[2])
-            trail.append(f'set {st[1]}={st[2]}')
-            continue
-        got = wb.value(st[1])
-        n += 1
-        ctx.expect(same(got, ('Number', st[2])), anchor, f'{label}: {st[1]} after [{"; ".join(trail)}]',
-                   f'after {"; ".join(trail)} (every cell had been evaluated before), {st[1]} evaluates to {got!r}, expected {st[2]}. {why}')
+    focus = sorted({st[1] for st in steps if st[0] == 'eval'} | set(first))
+    sub = W.Workbook(ctx, sheets=REF_SHEETS, names=REF_NAMES).extracted(focus)      # the same history on a model extracted for these cells and names
+    for kind, book in (('', wb), (' (in the model extracted for these cells)', sub)):
+        trail = []
+        for st in steps:
+            if st[0] == 'set':
+                book.set(st[1], st[2])
+                trail.append(f'set {st[1]}={st[2]}')
+                continue
+            got = book.value(st[1])
+            n += 1
+            ctx.expect(same(got, ('Number', st[2])), anchor, f'{label}{kind}: {st[1]} after [{"; ".join(trail)}]',
+                       f'after {"; ".join(trail)}{kind}, {st[1]} evaluates to {got!r}, expected {st[2]}. {why}')
     return n
